@@ -1,6 +1,6 @@
 (* C08 -- NNX vmap/scan/grad match the loop, the stack and jax.grad of the functional form. *)
 From Coq Require Import ZArith.
-From Flaxm Require Import Lib.Harness Model.NnxFilters Model.NnxLift Model.Axes Proofs.NnxLift Proofs.Axes.
+From Flaxm Require Import Lib.Harness Model.NnxFilters Model.NnxLift Model.Axes Proofs.NnxLift Proofs.Axes Model.Alias Proofs.Alias.
 
 (* StateAxes: every Variable gets the axis of the FIRST filter that matches it *)
 Theorem C08_axis_of_first_match : forall sa v s, spec_of sa v = Some s ->
@@ -51,6 +51,15 @@ Theorem C08_moveaxis_inverse : forall n ax, valid_axis n ax -> 0 < n ->
   compose_perm (moveaxis_perm n ax 0) (moveaxis_perm n 0 ax) = seq 0 n.
 Proof. exact moveaxis_inverse. Qed.
 Print Assumptions C08_moveaxis_inverse.
+
+(* arguments that alias one Variable: the call is accepted exactly when no Variable is reached under two different
+   specifications, and then every occurrence carries the one specification the Variable is treated under *)
+Theorem C08_aliasing_accepted_iff_consistent : forall os, alias_ok os = true <-> forall v p q, In (v, p) os -> In (v, q) os -> p = q.
+Proof. exact alias_ok_spec. Qed.
+Print Assumptions C08_aliasing_accepted_iff_consistent.
+Theorem C08_aliased_arguments_are_one_object : forall os v p, alias_ok os = true -> In (v, p) os -> spec_for v os = Some p.
+Proof. exact alias_ok_one_spec. Qed.
+Print Assumptions C08_aliased_arguments_are_one_object.
 
 Example C08_broadcast_write_refuted :
   let specs := [SAxis 0; SNone] in
